@@ -62,7 +62,7 @@ def floors(tier):
     return {"fixtures": 2500, "fixtures_exhaustive_vectors": 600, "fixtures_last_valid_earlier_bad": 300,
             "subprocess_runs": 30 if tier == "quick" else 100, "stdin_fixtures": 40, "base_uri_fixtures": 40,
             "validator_option_fixtures": 100, "validator_vs_dollar_schema_fixtures": 150, "mode:plain-custom": 500, "mode:plain-default": 300, "mode:pretty": 500, "mode:plain-empty": 300,
-            "exit0": 100, "exit_nonzero": 1000, "validation_chunks_checked": 3000, "load_diagnostics_checked": 1500}
+            "exit0": 100, "exit_nonzero": 1000, "fixtures_long_lists": 10, "validation_chunks_checked": 3000, "load_diagnostics_checked": 1500}
 
 
 class Fixture:
@@ -188,8 +188,10 @@ def check(ctx, case, argv, mode, sp, schema_state, sval, insts, cls_opt, base_ur
                 success.append(path)
     ctx.count("exit0" if expect_ok else "exit_nonzero")
     # ---- exit status
-    if (code == 0) != expect_ok:
-        return bad("exit-status", "exit status %r, expected %s" % (code, "0" if expect_ok else "non-zero"))
+    # (what run() returns is handed to sys.exit(): the parent process sees its low 8 bits)
+    seen_by_parent = 0 if code is None else (code & 0xFF) if isinstance(code, int) else 1
+    if (seen_by_parent == 0) != expect_ok:
+        return bad("exit-status", "exit status %r (the parent process sees %r), expected %s" % (code, seen_by_parent, "0" if expect_ok else "non-zero"))
     # ---- stdout
     if mode != "pretty":
         if out != "":
@@ -392,6 +394,16 @@ def run(ctx):
                             one(ctx, root, rr, n, sst, [rr.choice(["valid", "invalid", "notjson"])], mode, stdin_mode=True)
                         else:
                             one(ctx, root, rr, n, sst, list(vec), mode, subprocess_too=(idx % 97 == 0))
+        # long instance lists (a status that counts failures wraps around at 256)
+        for k_long, lead in ((255, ["invalid"]), (256, []), (256, ["valid"]), (257, []), (512, []), (255, ["notjson"]), (128, ["missing"] * 128)):
+            for mode in ("plain-default", "pretty"):
+                idx += 1
+                if not ctx.mine(idx):
+                    continue
+                n += 1
+                ctx.count("fixtures_long_lists")
+                kind = "missing" if (idx % 2) else "notjson"
+                one(ctx, root, rr, n, "valid", lead + [kind] * k_long, mode, subprocess_too=(k_long == 256 and not lead))
         rng = ctx.rng
         for i in range(ctx.scale(450, 4000)):
             n += 1
